@@ -879,9 +879,11 @@ fn timeout_cases(r: &mut Rng, n: usize) -> Vec<Case> {
                     (fs, Resp::Rows(rows, st))
                 })
                 .collect();
-            let cons = match r.below(3) {
-                0 => Cons::Jitter,
-                1 => Cons::Slow(1),
+            // one in four drops the stream early (before or after the timeout surfaced)
+            let cons = match i % 4 {
+                1 => Cons::Jitter,
+                2 => Cons::Slow(1),
+                3 => Cons::Drop(r.below(6) as usize),
                 _ => Cons::Full,
             };
             Case { kind: 'T', mode, api: if mode == 'c' || r.bool() { 'e' } else { 'q' }, cons, nodes, policy: if mode == 'c' { "f".into() } else { "x".into() }, script }
